@@ -802,3 +802,73 @@ def groupValuesOK (t : Tags) : List Bytes → List (ValId × Option Bytes) → P
   | _, _ => False
 
 end LinVerif.TagFilter
+
+namespace LinVerif.TagFilter
+
+/-! ### a reader parked across a flush (reader ‖ flusher)
+
+Every read path takes the store's file snapshot and reads its memory tables at two different
+instants. `parkedState` is what a reader observes that did the first of the two at `s1`, was
+descheduled while other steps ran, and did the second at `s2`. Which one comes first is a code fact
+(`ReadOrder`, regenerated: `Generated.C10.*MemFirst`). -/
+
+/-- the yield points: `index.kvstore.afterSnapshot` (equals / in, `getOrCreateValue`: memory and
+snapshot are both read before it), `index.kvstore.{regexp,like}.afterSnapshot`,
+`index.inverted.afterSnapshot`, `index.forward.afterSnapshot` -/
+inductive ParkPoint
+  | dictFind | dictScan | inverted | forward
+  deriving DecidableEq, Repr
+
+/-- per read path: are the memory tables read BEFORE the file snapshot is taken -/
+structure ReadOrder where
+  dictScanMemFirst : Bool
+  invMemFirst : Bool
+  fwdMemFirst : Bool
+  deriving DecidableEq, Repr
+
+def hybridDict (memFirst : Bool) (d1 d2 : Dict) : Dict :=
+  if memFirst then { mtb := d1.mtb, imm := d1.imm, l0 := d2.l0, l1 := d2.l1 }
+  else { mtb := d2.mtb, imm := d2.imm, l0 := d1.l0, l1 := d1.l1 }
+
+def hybridInv (memFirst : Bool) (d1 d2 : Inv) : Inv :=
+  if memFirst then { mtb := d1.mtb, imm := d1.imm, l0 := d2.l0, l1 := d2.l1, phase := d2.phase }
+  else { mtb := d2.mtb, imm := d2.imm, l0 := d1.l0, l1 := d1.l1, phase := d2.phase }
+
+def hybridFwd (memFirst : Bool) (d1 d2 : Fwd) : Fwd :=
+  if memFirst then { mtb := d1.mtb, imm := d1.imm, l0 := d2.l0, l1 := d2.l1, phase := d2.phase }
+  else { mtb := d2.mtb, imm := d2.imm, l0 := d1.l0, l1 := d1.l1, phase := d2.phase }
+
+def ReadOrder.memFirstAt (ro : ReadOrder) : ParkPoint → Bool
+  | .dictFind => true
+  | .dictScan => ro.dictScanMemFirst
+  | .inverted => ro.invMemFirst
+  | .forward => ro.fwdMemFirst
+
+/-- the state observed by a single-read query parked at `pt` from `s1` to `s2` (all its other reads
+happen entirely at one instant; under the invariant they do not depend on which) -/
+def parkedState (ro : ReadOrder) (pt : ParkPoint) (s1 s2 : State) : State :=
+  match pt with
+  | .dictFind => { s2 with dict := s1.dict }
+  | .dictScan => { s2 with dict := hybridDict ro.dictScanMemFirst s1.dict s2.dict }
+  | .inverted => { s2 with inv := hybridInv ro.invMemFirst s1.inv s2.inv }
+  | .forward => { s2 with fwd := hybridFwd ro.fwdMemFirst s1.fwd s2.fwd }
+
+end LinVerif.TagFilter
+
+namespace LinVerif.TagFilter
+
+/-! ### `like` against an abstract matcher -/
+
+def likeLead (p : Bytes) : Bool := p.head? == some star
+def likeTrail (p : Bytes) : Bool := (if likeLead p then p.tail else p).getLast? == some star
+/-- the pattern without its leading and trailing wildcard -/
+def likeCore (p : Bytes) : Bytes :=
+  let rest := if likeLead p then p.tail else p
+  if likeTrail p then rest.dropLast else rest
+
+/-- the abstract `like`: the value is the core of the pattern, preceded by anything iff the pattern
+starts with `*` and followed by anything iff it ends with `*` -/
+def LikeMatch (p v : Bytes) : Prop :=
+  p ≠ [] ∧ ∃ pre suf, v = pre ++ likeCore p ++ suf ∧ (likeLead p = false → pre = []) ∧ (likeTrail p = false → suf = [])
+
+end LinVerif.TagFilter
